@@ -37,4 +37,21 @@ static void scribble_free(bytes_t *a) {
     if (a->p) { memset(a->p, 0xAA, a->n); free(a->p); a->p = NULL; }
 }
 
+/* ---- the errno the CALLER brings in. Before every library call the harness plants the next value
+ * of a fixed cycle (deterministic: the n-th library call of a run always sees the same value), so
+ * that a result or a state that depends on a stale errno shows. Where errno is read after a failed
+ * call the library must have set it itself. PLANT0() is used only where the API makes errno the
+ * ONLY failure report of a call that also succeeds silently (popint/getint returning 0, the void
+ * qvector_reverse): there the documented protocol is that the caller clears errno first. */
+static unsigned long plant_n;
+static int plant_last;
+static int plant_next(void) {
+    static const int cycle[8] = {0, ENOMEM, ERANGE, EINTR, ENOENT, EINVAL, EAGAIN, ENOBUFS};
+    plant_last = cycle[plant_n++ % 8];
+    return plant_last;
+}
+static void plant_restart(unsigned long seed) { plant_n = seed; }
+#define PLANT() (errno = plant_next())
+#define PLANT0() (errno = 0, plant_last = 0)
+
 #endif
